@@ -1,0 +1,151 @@
+//go:build verif
+
+// Contracts for the deductive verification in /verif (govc), topic rsa (C23, C03, C01).
+// This file contains comments only; it is compiled only with -tags verif.
+
+package rsa
+
+//@ global errPublicModulus != nil && errPublicExponentSmall != nil && ErrVerification != nil && ErrMessageTooLong != nil && bigOne != nil && invalidSaltLenErr != nil
+
+//@ func incCounter
+//@   requires c != nil
+//@   ensures  uint32(c[0])<<24 | uint32(c[1])<<16 | uint32(c[2])<<8 | uint32(c[3]) == (uint32(old(c[0]))<<24 | uint32(old(c[1]))<<16 | uint32(old(c[2]))<<8 | uint32(old(c[3]))) + 1
+//@   modifies under(c)
+//@   terminates
+
+// A public key component as callers can build it: nil, or a math/big value in normalized
+// representation (invariant of math/big; only Int.SetBits can break it).
+//@ pred okBig(x) = x == nil || bnorm(x)
+// x >= 2 in terms of the representation (x normalized)
+//@ pred bge2(x) = !x.neg && (len(x.abs) >= 2 || (len(x.abs) == 1 && x.abs[0] >= 2))
+//@ pred okPub(pub) = pub != nil && okBig(pub.N) && okBig(pub.E)
+
+// Size: the modulus size in bytes, ceil(bitlen(N)/8). Panics on a missing modulus.
+//@ func (*PublicKey).Size
+//@   requires pub != nil && pub.N != nil
+//@   ensures  result == (blen(pub.N) + 7) / 8 && 0 <= result && result <= 1<<48
+//@   lemma    spec.bits_len64_def(uint64(0))
+//@   terminates
+
+// checkPub (property C23: a key with a missing value, or an exponent below 2 - in particular
+// zero or negative - is rejected with an error).
+//@ func checkPub
+//@   requires pub != nil
+//@   ensures  result == nil <==> (pub.N != nil && pub.E != nil && bge2(pub.E))
+//@   terminates
+
+// encrypt: c = m^E mod N as a k-byte big-endian string, k = Size(); error when m >= N.
+// Needs N and E present and E not negative (Exp returns nil for a negative exponent without
+// inverse); a zero or negative N is answered with an error.
+//@ func encrypt
+//@   requires okPub(pub) && pub.N != nil && pub.E != nil && !pub.E.neg
+//@   ensures  result1 == nil ==> len(result0) == (blen(pub.N) + 7) / 8 && fresh(result0) && result0 != nil
+//@   ensures  result1 == nil ==> !pub.N.neg && len(pub.N.abs) > 0
+//@   ensures  result1 != nil ==> result0 == nil
+//@   ensures  (pub.N.neg || len(pub.N.abs) == 0) ==> result1 != nil
+//@   terminates
+
+// ---------------------------------------------------------------- pkcs1v15.go
+
+// nonZeroRandomBytes (documented: "fills the given slice with non-zero random octets").
+// Termination depends on the random source (a zero byte is redrawn), so none is claimed.
+//@ func nonZeroRandomBytes
+//@   requires random != nil
+//@   loop 1 invariant 0 <= i && i <= len(s) && forall(k, 0, i, s[k] != 0)
+//@   loop 1 invariant forallv(p, *uint8, old(allocated(p)) && !samebase(p, s) ==> *p == old(*p))
+//@   loop 2 invariant 0 <= i && i < len(s) && forall(k, 0, i, s[k] != 0)
+//@   loop 2 invariant forallv(p, *uint8, old(allocated(p)) && !samebase(p, s) ==> *p == old(*p))
+//@   ensures  err == nil ==> forall(k, 0, len(s), s[k] != 0)
+//@   modifies under(s)
+
+// EncryptPKCS1v15 (documented: "The message must be no longer than the length of the public
+// modulus minus 11 bytes"; C23: a malformed key gives an error, never a panic).
+//@ func EncryptPKCS1v15
+//@   requires okPub(pub) && random != nil
+//@   ensures  [malformed] (pub.N == nil || pub.E == nil || !bge2(pub.E) || pub.N.neg || len(pub.N.abs) == 0) ==> result1 != nil
+//@   ensures  [toolong] pub.N != nil && len(msg) > (blen(pub.N) + 7) / 8 - 11 ==> result1 != nil
+//@   ensures  [size] result1 == nil ==> len(result0) == (blen(pub.N) + 7) / 8
+//@   ensures  result1 != nil ==> result0 == nil
+
+// Length of the DigestInfo prefix used for a hash (none when the data is signed directly).
+//@ pred pfxLen(h) = ite(h == 0, 0, len(hashPrefixes[h]))
+//@ pred knownHash(h) = h == 0 || (1 <= h && h < 20)
+
+// EMSA-PKCS1-v1_5 (RFC 8017 9.2): EM = 0x00 || 0x01 || PS || 0x00 || T with PS at least
+// eight 0xff octets and T = DigestInfo prefix || hash; "intended encoded message length too
+// short" when emLen < tLen + 11. emLen is the modulus size k.
+//@ func pkcs1v15ConstructEM
+//@   requires pub != nil && pub.N != nil && knownHash(hash)
+//@   loop 1 invariant 2 <= i && i <= k - len(prefix) - len(hashed) - 1 && len(em) == k && fresh(em) && em[0] == 0 && em[1] == 1 && forall(j, 2, i, em[j] == 0xff) && forall(j, i, k, em[j] == 0)
+//@   loop 1 decreases k - len(prefix) - len(hashed) - 1 - i
+//@   ensures  [len] result1 == nil ==> len(result0) == (blen(pub.N) + 7) / 8 && len(result0) >= pfxLen(hash) + len(hashed) + 11
+//@   ensures  [head] result1 == nil ==> result0[0] == 0 && result0[1] == 1 && forall(j, 2, len(result0) - pfxLen(hash) - len(hashed) - 1, result0[j] == 0xff) && result0[len(result0) - pfxLen(hash) - len(hashed) - 1] == 0
+//@   ensures  [prefix] result1 == nil && hash != 0 ==> has(hashPrefixes, hash) && forall(j, 0, len(hashPrefixes[hash]), result0[len(result0) - len(hashPrefixes[hash]) - len(hashed) + j] == hashPrefixes[hash][j])
+//@   ensures  [hash] result1 == nil ==> forall(j, 0, len(hashed), result0[len(result0) - len(hashed) + j] == hashed[j])
+//@   ensures  [short] (blen(pub.N) + 7) / 8 < pfxLen(hash) + len(hashed) + 11 ==> result1 != nil
+//@   ensures  [unsupported] hash != 0 && !has(hashPrefixes, hash) ==> result1 != nil
+//@   ensures  result1 != nil ==> result0 == nil
+//@   terminates
+
+// RSASSA-PKCS1-V1_5-VERIFY (RFC 8017 8.2.2): "If the length of the signature S is not k
+// octets ... output invalid signature". C23: a malformed key gives an error, not a panic -
+// the code calls neither checkPub nor any other test of N and E, see notes (defect).
+//@ func VerifyPKCS1v15
+//@   requires okPub(pub) && knownHash(hash)
+//@   ensures  [siglen] result == nil ==> len(sig) == (blen(pub.N) + 7) / 8
+//@   ensures  [modulus] result == nil ==> !pub.N.neg && len(pub.N.abs) > 0
+//@   terminates
+
+// ---------------------------------------------------------------- rsa.go (MGF1)
+
+// mgf1XOR: only (the array of) out is written. The mask bytes are hash output and not
+// modelled. It terminates because every digest has at least one byte, but that is not
+// claimed here: the invariant language cannot relate the inner loop's `done` to its value
+// at the start of the outer iteration (see notes).
+//@ func mgf1XOR
+//@   requires hash != nil
+//@   loop 1 invariant 0 <= done && done <= len(out) && (digest == nil || fresh(digest))
+//@   loop 1 invariant forallv(p, *uint8, old(allocated(p)) && !samebase(p, out) ==> *p == old(*p))
+//@   loop 2 invariant 0 <= i && i <= len(digest) && 0 <= done && done <= len(out) && len(digest) >= 1 && fresh(digest)
+//@   loop 2 invariant forallv(p, *uint8, old(allocated(p)) && !samebase(p, out) ==> *p == old(*p))
+//@   modifies under(out)
+
+// ---------------------------------------------------------------- pss.go
+
+//@ func (*PSSOptions).saltLength
+//@   ensures result == ite(opts == nil, 0, opts.SaltLength)
+//@   terminates
+
+// EMSA-PSS-ENCODE (RFC 8017 9.1.1): emLen = ceil(emBits/8); "If emLen < hLen + sLen + 2,
+// output encoding error"; EM = maskedDB || H || 0xbc with the leftmost 8*emLen - emBits bits
+// of EM zero. (H and the mask are hash output and not modelled.)
+//@ func emsaPSSEncode
+//@   requires hash != nil && emBits <= 1<<51
+//@   ensures  [len] result1 == nil ==> len(result0) == (emBits + 7) / 8 && len(result0) >= len(mHash) + len(salt) + 2 && fresh(result0)
+//@   ensures  [trailer] result1 == nil ==> result0[len(result0)-1] == 0xbc
+//@   ensures  [topbits] result1 == nil ==> result0[0] & ^(0xff >> uint(8*len(result0) - emBits)) == 0
+//@   ensures  [short] (emBits + 7) / 8 < len(mHash) + len(salt) + 2 ==> result1 != nil
+//@   ensures  result1 != nil ==> result0 == nil
+
+// EMSA-PSS-VERIFY (RFC 8017 9.1.2): "consistent" only if emLen >= hLen + sLen + 2, the
+// rightmost octet is 0xbc and the leftmost 8*emLen - emBits bits are zero. em is unmasked
+// in place. sLen is -1 (hash length), 0 (auto) or a salt length; absurdly large values
+// overflow hLen + sLen + 2 (see notes), hence the bound.
+//@ func emsaPSSVerify
+//@   requires hash != nil && -1 <= sLen && sLen <= 1<<40
+//@   loop 1 invariant 0 <= it && it <= psLen
+//@   ensures  [len] result == nil ==> len(em) == (emBits + 7) / 8 && len(em) >= len(mHash) + 2 && (sLen > 0 ==> len(em) >= len(mHash) + sLen + 2)
+//@   ensures  [trailer] result == nil ==> old(em[len(em)-1]) == 0xbc
+//@   ensures  [topbits] result == nil ==> old(em[0]) & ^(0xff >> uint(8*len(em) - emBits)) == 0
+//@   modifies under(em)
+
+// VerifyPSS (RFC 8017 8.1.2: "If the length of the signature S is not k octets, output
+// invalid signature"; documented: a SaltLength below -1 is an error). C23: a malformed key
+// gives an error, not a panic - the code never checks N and E, see notes (defect).
+//@ func VerifyPSS
+//@   requires okPub(pub) && 1 <= hash && hash < 20 && (opts != nil ==> opts.SaltLength <= 1<<40)
+//@   loop 1 invariant fresh(em) && em != nil
+//@   loop 1 decreases len(em)
+//@   ensures  [siglen] result == nil ==> len(sig) == (blen(pub.N) + 7) / 8
+//@   ensures  [modulus] result == nil ==> !pub.N.neg && len(pub.N.abs) > 0
+//@   ensures  [saltlen] opts != nil && opts.SaltLength < -1 ==> result != nil
